@@ -126,6 +126,9 @@ theorem step_r_inv (H : List UInt8 → List UInt8) (P : Recv → Prop)
   case wrongSid => split <;> simp_all
   case wrongSender => split <;> simp_all
   case inject => simp_all
+  case lose => exact h
+  case injectReply => simp_all
+  case peerClose => exact h
 
 theorem run_r_inv (H : List UInt8 → List UInt8) (P : Recv → Prop)
     (hP : ∀ r p, P r → P (recv H r p).1) (ops : List Op) (st : St) (h : P st.r) : P (run H st ops).1.r := by
@@ -270,6 +273,9 @@ theorem tri_step (st : St) (op : Op) (hb : op.benign) (h : Tri SP RP G st) : Tri
     · exact h
     · exact tri_deliverStanza H hR hS hC _ _ clr (Or.inr (Or.inl (by simp)))
   case inject a b k => exact tri_deliverStanza H hR hS hC _ _ h (Or.inr hb)
+  case lose => exact clr
+  case injectReply => exact tri_feed H hR hS hC _ _ h
+  case peerClose => exact h
 
 theorem tri_run (ops : List Op) (st : St) (hb : ∀ op ∈ ops, op.benign) (h : Tri SP RP G st) :
     Tri SP RP G (run H st ops).1 := by
@@ -1268,5 +1274,263 @@ theorem srun_honest (H : List UInt8 → List UInt8) (data : List UInt8) (cs : Li
         simp [sstep, hs.1]
       rw [this]
       exact ih r hsize hhash hu (Or.inr ⟨hs, hacc⟩)
+
+end Qx.C19
+
+namespace Qx.C19
+
+/-! ### the positive half: after a fault the receiving job FINISHES with an error -/
+
+theorem run_honest_settled (H : List UInt8 → List UInt8) (st : St) (k : Nat)
+    (h : (run H st (honest k)).1.pending = none) (n : Nat) (hn : k ≤ n) :
+    (run H st (honest n)).1 = (run H st (honest k)).1 := by
+  obtain ⟨m, rfl⟩ : ∃ m, n = k + m := ⟨n - k, by omega⟩
+  rw [honest_add, run_append, run_honest_idle H _ h]
+
+/-- the receiving job only ever ends with `NoError` or `FileCorruptError` -/
+def REok (r : Recv) : Prop := r.error = .none ∨ r.error = .corrupt
+
+theorem recv_REok (H : List UInt8 → List UInt8) (r : Recv) (p : Stanza) (h : REok r) : REok (recv H r p).1 := by
+  unfold recv
+  split
+  · exact h
+  · split
+    · unfold Recv.checkData Recv.terminate
+      split <;> split <;> first | exact h | (right; rfl) | (left; rfl)
+    · split
+      · exact h
+      · split
+        · exact h
+        · simpa [REok] using h
+    · split
+      · exact h
+      · exact h
+
+/-- sender and receiver are in step: the channel holds exactly the block the receiver waits for -/
+def Sync (st : St) : Prop :=
+  st.r.state = .transfer ∧ st.s.state = .transfer ∧ st.s.seq = st.r.expected + 1 ∧
+  ∃ pl, st.pending = some { id := st.s.requestId, sender := 0, sid := 0, kind := .data st.r.expected pl }
+
+/-- the sender is done (for whatever reason), its `<close/>` is in the channel, the receiver still waits -/
+def Closing (st : St) : Prop :=
+  st.r.state = .transfer ∧ st.s.state = .finished ∧
+  st.pending = some { id := st.s.requestId, sender := 0, sid := 0, kind := .close }
+
+theorem closing_step (H : List UInt8 → List UInt8) (st : St) (h : Closing st) :
+    (step H st .deliver).1.r.state = .finished ∧ (step H st .deliver).1.pending = none ∧
+    (step H st .deliver).1.s.state = .finished := by
+  obtain ⟨h1, h2, h3⟩ := h
+  simp only [step, h3, deliverStanza, toR, feed, recv]
+  have hs : ∀ rep, sender st.s rep = (st.s, none) := by
+    intro rep; unfold sender; simp [h2]
+  simp [hs, h2, Recv.checkData, Recv.terminate, h1]
+  split <;> simp
+
+theorem sync_step (H : List UInt8 → List UInt8) (st : St) (hb : 0 < st.s.blockSize) (h : Sync st) :
+    (Sync (step H st .deliver).1 ∧ (step H st .deliver).1.s.rest.length < st.s.rest.length ∧
+      (step H st .deliver).1.s.blockSize = st.s.blockSize) ∨ Closing (step H st .deliver).1 := by
+  obtain ⟨h1, h2, h3, pl, h4⟩ := h
+  by_cases hmore : st.s.rest.take st.s.blockSize = []
+  · right
+    simp [step, h4, deliverStanza, toR, feed, recv, h1, sender, h2, hmore, Closing, Send.terminate]
+  · left
+    have hlen : (st.s.rest.drop st.s.blockSize).length < st.s.rest.length := by
+      have : st.s.rest ≠ [] := by intro he; simp [he] at hmore
+      have := List.length_pos_iff.mpr this
+      rw [List.length_drop]; omega
+    refine ⟨?_, ?_, ?_⟩
+    · simp [step, h4, deliverStanza, toR, feed, recv, h1, sender, h2, hmore, Sync, h3]
+    · simpa [step, h4, deliverStanza, toR, feed, recv, h1, sender, h2, hmore] using hlen
+    · simp [step, h4, deliverStanza, toR, feed, recv, h1, sender, h2, hmore]
+
+theorem closing_finishes (H : List UInt8 → List UInt8) (st : St) (h : Closing st) (n : Nat) (hn : 1 ≤ n) :
+    (run H st (honest n)).1.r.state = .finished ∧ (run H st (honest n)).1.pending = none ∧
+    (run H st (honest n)).1.s.state = .finished := by
+  have h1 := closing_step H st h
+  have e1 : (run H st (honest 1)).1 = (step H st .deliver).1 := by simp [honest, run]
+  rw [run_honest_settled H st 1 (by rw [e1]; exact h1.2.1) n hn, e1]
+  exact h1
+
+theorem sync_finishes (H : List UInt8 → List UInt8) (k : Nat) : ∀ (st : St), 0 < st.s.blockSize → Sync st →
+    st.s.rest.length ≤ k → ∀ n, k + 2 ≤ n →
+    (run H st (honest n)).1.r.state = .finished ∧ (run H st (honest n)).1.pending = none ∧
+    (run H st (honest n)).1.s.state = .finished := by
+  induction k with
+  | zero =>
+    intro st hb hs hk n hn
+    obtain ⟨m, rfl⟩ : ∃ m, n = 1 + m := ⟨n - 1, by omega⟩
+    rw [honest_add, run_append]
+    have e1 : (run H st (honest 1)).1 = (step H st .deliver).1 := by simp [honest, run]
+    rw [e1]
+    rcases sync_step H st hb hs with ⟨_, hlt, _⟩ | hc
+    · omega
+    · exact closing_finishes H _ hc m (by omega)
+  | succ k ih =>
+    intro st hb hs hk n hn
+    obtain ⟨m, rfl⟩ : ∃ m, n = 1 + m := ⟨n - 1, by omega⟩
+    rw [honest_add, run_append]
+    have e1 : (run H st (honest 1)).1 = (step H st .deliver).1 := by simp [honest, run]
+    rw [e1]
+    rcases sync_step H st hb hs with ⟨hs', hlt, hbs⟩ | hc
+    · exact ih _ (by rw [hbs]; exact hb) hs' (by omega) m (by omega)
+    · exact closing_finishes H _ hc m (by omega)
+
+end Qx.C19
+
+namespace Qx.C19
+
+section reports
+set_option linter.unusedSimpArgs false
+variable (H : List UInt8 → List UInt8) (bsS bsR : Nat) (hash : Option (List UInt8)) (data : List UInt8) (j : Nat)
+
+/-- what "the receiving job has reported a corruption" means for a state -/
+def Reported (st : St) : Prop :=
+  st.r.state = .finished ∧ st.r.error = .corrupt ∧ st.pending = none ∧ st.s.state = .finished
+
+theorem short_checkFails (hblk : j * bsS < data.length) (r : Recv) (e1 : r.size = data.length)
+    (e3 : r.accRev = (data.take (j * bsS)).reverse) : r.checkFails H = true := by
+  simp [Recv.checkFails, Recv.acc, e1, e3]
+  left
+  refine ⟨?_, by omega⟩
+  intro hd; simp [hd] at hblk
+
+theorem drop_reports (hb : 0 < bsS) (hblk : j * bsS < data.length) :
+    Reported (run H (step H (atBlock bsS bsR data.length hash data j) .drop).1 (honest 2)).1 := by
+  have hcf := short_checkFails H bsS data j hblk
+  by_cases hmore : (j + 1) * bsS < data.length
+  · have h2 := take_drop_ne_nil data ((j + 1) * bsS) bsS hmore hb
+    simp [Reported, honest, run, step, deliverStanza, atBlock, toR, feed, recv, Recv.write_unlimited_eq, sender, ack, h2,
+      Send.terminate, Recv.checkData, hcf, Recv.terminate]
+  · have h2 : List.drop ((j + 1) * bsS) data = [] := List.drop_of_length_le (by omega)
+    simp [Reported, honest, run, step, deliverStanza, atBlock, toR, feed, recv, Recv.write_unlimited_eq, sender, ack, h2,
+      Send.terminate, Recv.checkData, hcf, Recv.terminate]
+
+theorem wrongSid_reports (hblk : j * bsS < data.length) :
+    Reported (run H (step H (atBlock bsS bsR data.length hash data j) .wrongSid).1 (honest 2)).1 := by
+  have hcf := short_checkFails H bsS data j hblk
+  simp [Reported, honest, run, step, deliverStanza, atBlock, toR, feed, recv, Recv.write_unlimited_eq, sender, ack,
+    Send.terminate, Recv.checkData, hcf, Recv.terminate]
+
+theorem earlyClose_reports (hblk : j * bsS < data.length) :
+    Reported (run H (step H (atBlock bsS bsR data.length hash data j) .earlyClose).1 (honest 2)).1 := by
+  have hcf := short_checkFails H bsS data j hblk
+  simp [Reported, honest, run, step, deliverStanza, atBlock, toR, feed, recv, Recv.write_unlimited_eq, sender, ack,
+    Send.terminate, Recv.checkData, hcf, Recv.terminate]
+
+theorem swap_reports (hb : 0 < bsS) (hblk : j * bsS < data.length) :
+    Reported (run H (step H (atBlock bsS bsR data.length hash data j) .swap).1 (honest 2)).1 := by
+  by_cases hmore : (j + 1) * bsS < data.length
+  · have h2 := take_drop_ne_nil data ((j + 1) * bsS) bsS hmore hb
+    have hcf : ∀ r : Recv, r.size = data.length →
+        r.accRev = ((data.drop (j * bsS)).take bsS).reverse ++ (data.take (j * bsS)).reverse → r.checkFails H = true := by
+      intro r e1 e3
+      simp [Recv.checkFails, Recv.acc, e1, e3]
+      left
+      refine ⟨?_, ?_⟩
+      · intro hd; simp [hd] at hblk
+      · have key : ∀ x len bs : Nat, x + bs < len → ¬ (min x len + min bs (len - x) = len) := by
+          intro x len bs h; omega
+        exact key (j * bsS) data.length bsS (by rw [← Nat.succ_mul]; exact hmore)
+    simp [Reported, honest, run, step, deliverStanza, atBlock, toR, feed, recv, Recv.write_unlimited_eq, sender, ack, h2,
+      Send.terminate, Recv.checkData, hcf, Recv.terminate]
+  · have h2 : List.drop ((j + 1) * bsS) data = [] := List.drop_of_length_le (by omega)
+    have hcf := short_checkFails H bsS data j hblk
+    simp [Reported, honest, run, step, deliverStanza, atBlock, toR, feed, recv, Recv.write_unlimited_eq, sender, ack, h2,
+      Send.terminate, Recv.checkData, hcf, Recv.terminate]
+
+/-- after an altered block was taken, sender and receiver are still in step (or the sender is already closing) -/
+theorem flip_sync (size : Nat) (hb : 0 < bsS) (bit : Nat) :
+    let st := (step H (atBlock bsS bsR size hash data j) (.flip bit)).1
+    (Sync st ∨ Closing st) ∧ st.s.blockSize = bsS ∧ st.s.rest.length ≤ data.length := by
+  by_cases hmore : (j + 1) * bsS < data.length
+  · have h2 := take_drop_ne_nil data ((j + 1) * bsS) bsS hmore hb
+    refine ⟨Or.inl ?_, ?_, ?_⟩
+    · simp [Sync, step, deliverStanza, atBlock, toR, feed, recv, Recv.write_unlimited_eq, sender, flipStanza, h2]
+    · simp [step, deliverStanza, atBlock, toR, feed, recv, Recv.write_unlimited_eq, sender, flipStanza, h2]
+    · simp [step, deliverStanza, atBlock, toR, feed, recv, Recv.write_unlimited_eq, sender, flipStanza, h2]
+  · have h2 : List.drop ((j + 1) * bsS) data = [] := List.drop_of_length_le (by omega)
+    refine ⟨Or.inr ?_, ?_, ?_⟩
+    · simp [Closing, step, deliverStanza, atBlock, toR, feed, recv, Recv.write_unlimited_eq, sender, flipStanza, h2, Send.terminate]
+    · simp [step, deliverStanza, atBlock, toR, feed, recv, Recv.write_unlimited_eq, sender, flipStanza, h2, Send.terminate]
+    · simp [step, deliverStanza, atBlock, toR, feed, recv, Recv.write_unlimited_eq, sender, flipStanza, h2, Send.terminate]
+
+/-- a block (or the answer to it) vanishes and nothing follows: nothing ever happens again -/
+theorem lose_idle : (step H (atBlock bsS bsR data.length hash data j) .lose).1.pending = none ∧
+    (step H (atBlock bsS bsR data.length hash data j) .lose).1.r.state = .transfer ∧
+    (step H (atBlock bsS bsR data.length hash data j) .lose).1.s.state = .transfer := by
+  simp [step, atBlock]
+
+theorem wrongSender_idle : (step H (atBlock bsS bsR data.length hash data j) .wrongSender).1.pending = none ∧
+    (step H (atBlock bsS bsR data.length hash data j) .wrongSender).1.r.state = .transfer ∧
+    (step H (atBlock bsS bsR data.length hash data j) .wrongSender).1.s.state = .transfer := by
+  simp [step, deliverStanza, atBlock, toR, feed, recv, sender]
+
+end reports
+end Qx.C19
+
+namespace Qx.C19
+
+theorem lose_close_reports (H : List UInt8 → List UInt8) (bsS bsR : Nat) (hash : Option (List UInt8)) (data : List UInt8)
+    (j : Nat) (hblk : j * bsS < data.length) :
+    let st := (step H (step H (atBlock bsS bsR data.length hash data j) .lose).1 .earlyClose).1
+    st.r.state = .finished ∧ st.r.error = .corrupt ∧ st.pending = none := by
+  have hcf := short_checkFails H bsS data j hblk
+  simp [step, deliverStanza, atBlock, toR, feed, recv, sender, Recv.checkData, hcf, Recv.terminate]
+
+/-! ### the sending job alone -/
+
+theorem step_s_inv (H : List UInt8 → List UInt8) (P : Send → Prop)
+    (hP : ∀ s rep, P s → P (sender s rep).1) (st : St) (op : Op) (h : P st.s) : P (step H st op).1.s := by
+  cases op <;> simp only [step, deliverStanza]
+  case deliver => split <;> simp_all
+  case drop => split <;> simp_all
+  case dup => split <;> simp_all
+  case swap =>
+    split
+    · exact h
+    · split
+      · simp_all
+      · exact hP _ _ (hP _ _ (hP _ _ h))
+  case flip => split <;> simp_all
+  case earlyClose => simp_all
+  case wrongSid => split <;> simp_all
+  case wrongSender => split <;> simp_all
+  case inject => simp_all
+  case lose => exact h
+  case injectReply => simp_all
+  case peerClose => exact h
+
+theorem run_s_inv (H : List UInt8 → List UInt8) (P : Send → Prop)
+    (hP : ∀ s rep, P s → P (sender s rep).1) (ops : List Op) (st : St) (h : P st.s) : P (run H st ops).1.s := by
+  induction ops generalizing st with
+  | nil => exact h
+  | cons op ops ih => exact ih _ (step_s_inv H P hP st op h)
+
+/-- the sending job reports success only after it has read its device to the end -/
+def SDone (bs : Nat) (s : Send) : Prop :=
+  s.blockSize = bs ∧ (s.state = .finished → s.error = .none → s.rest.take bs = [])
+
+theorem sender_SDone (bs : Nat) (s : Send) (rep : Reply) (h : SDone bs s) : SDone bs (sender s rep).1 := by
+  obtain ⟨hb, hd⟩ := h
+  unfold sender
+  split
+  · exact ⟨hb, hd⟩
+  · split
+    · exact ⟨hb, hd⟩
+    · split
+      · exact ⟨hb, hd⟩
+      · rename_i hnf
+        split
+        · split
+          · exact ⟨hb, by intro hf; simp at hf⟩
+          · rename_i heof
+            refine ⟨by simpa using hb, ?_⟩
+            intro _ _
+            simp only [ne_eq, Decidable.not_not] at heof
+            simpa [hb] using heof
+        · refine ⟨by simpa using hb, ?_⟩
+          intro _ he
+          unfold Send.terminate at he
+          simp [hnf] at he
 
 end Qx.C19
